@@ -212,10 +212,13 @@ def gen_cases(spec, binp, tier, seed, rundir, extra_factor=1, streams=None):
     for st in (streams or spec["streams"]):
         n = st[tier] * extra_factor
         per = st.get("shard", max(1, (n + ncpu - 1) // ncpu))
+        sb = build_driver(st["driver"]) if st.get("driver") else binp
+        if sb is None:
+            continue
         a = 0
         while a < n:
             b = min(n, a + per)
-            jobs.append((st["name"], a, b))
+            jobs.append((st["name"], a, b, sb))
             a = b
     lines = []
     errs = []
@@ -224,9 +227,9 @@ def gen_cases(spec, binp, tier, seed, rundir, extra_factor=1, streams=None):
     tmo = spec.get("driver_timeout", {}).get(tier, 900 if tier == "quick" else 7200)
 
     def start(job):
-        name, a, b = job
+        name, a, b, sb = job
         out = os.path.join(rundir, "gen-%s-%d-%d.jsonl" % (name, a, b))
-        cmd = [binp, "gen", "-seed", str(seed), "-tier", tier, "-stream", name, "-from", str(a), "-to", str(b), "-out", out]
+        cmd = [sb, "gen", "-seed", str(seed), "-tier", tier, "-stream", name, "-from", str(a), "-to", str(b), "-out", out]
         return (subprocess.Popen(cmd, env=GOENV, stdout=subprocess.PIPE, stderr=subprocess.STDOUT, text=True, errors="replace"), out, job, time.time())
 
     pending = list(jobs)
@@ -261,7 +264,7 @@ def gen_cases(spec, binp, tier, seed, rundir, extra_factor=1, streams=None):
 
 
 def replay_cases(binp, files, rundir, tag="replay"):
-    if not files:
+    if not files or binp is None:
         return [], []
     out = os.path.join(rundir, tag + ".jsonl")
     rc, o = run_driver(binp, ["replay", "-in", ",".join(files)], out, 1800)
@@ -279,8 +282,43 @@ def replay_cases(binp, files, rundir, tag="replay"):
 RES_RE = re.compile(r"\(\s*(-?\d+)\s*,\s*(-?\d+)\s*,\s*(-?\d+)\s*\)")
 
 
+def stream_spec_raw(spec, name):
+    for st in spec["streams"]:
+        if st["name"] == name:
+            return st
+    return {}
+
+
+def stream_spec(spec, name):
+    for st in spec["streams"]:
+        if st["name"] == name:
+            d = dict(spec)
+            d.update({k: v for k, v in st.items() if k in ("check_module", "check_fn", "case_type", "case_imports", "coq_shard")})
+            return d
+    return spec
+
+
 def eval_cases(spec, lines, rundir, tag):
-    """Evaluate check_fn on every case inside coqc (vm_compute). Returns list of (corr, prop, code)."""
+    """Evaluate the stream's check_fn on every case inside coqc (vm_compute).
+    Returns a list of (corr, prop, code) aligned with `lines`."""
+    if not lines:
+        return [], []
+    groups = {}
+    for i, l in enumerate(lines):
+        groups.setdefault(l.get("stream", "main"), []).append(i)
+    if len(groups) > 1 or (list(groups)[0] != "main"):
+        results = [None] * len(lines)
+        errs = []
+        for g, idxs in groups.items():
+            r, e = eval_cases_one(stream_spec(spec, g), [lines[i] for i in idxs], rundir, tag + "_" + re.sub(r"\W", "_", g))
+            errs += e
+            for i, ri in zip(idxs, r):
+                results[i] = ri
+        return results, errs
+    return eval_cases_one(stream_spec(spec, "main"), lines, rundir, tag)
+
+
+def eval_cases_one(spec, lines, rundir, tag):
     if not lines:
         return [], []
     shard = spec.get("coq_shard", 150)
@@ -443,6 +481,9 @@ def main():
         binp = build_driver(spec["driver"]) if spec.get("driver") else None
         if spec.get("driver") and binp is None:
             problems.append({"kind": "build", "what": "harness driver %s does not build against /repo" % spec["driver"]})
+        for st in spec["streams"]:
+            if st.get("driver") and build_driver(st["driver"]) is None:
+                problems.append({"kind": "build", "what": "harness driver %s does not build against /repo" % st["driver"]})
         obl = check_obligations(spec, rundir)
         if args.tier == "thorough" or os.environ.get("VERIF_SCAN"):
             fb = forbidden_scan()
@@ -450,6 +491,14 @@ def main():
             fb = forbidden_scan()
         if fb:
             problems.append({"kind": "forbidden", "what": "forbidden vernacular in the development", "detail": fb})
+    coqchk_info = None
+    if tier == "thorough" and not os.environ.get("VERIF_NO_COQCHK") and obl["props_rc"] == 0 and obl["make_rc"] == 0:
+        lib = "Irismod." + spec["props_file"][:-2].replace("/", ".")
+        rc, out, dt = sh(["coqchk", "-silent", "-o", "-Q", COQ, "Irismod", lib], 5400)
+        ax = re.findall(r"^\s+([A-Za-z0-9_.']+)\s*$", out.split("* Axioms:")[-1].split("* Constants/Inductives relying on type-in-type")[0], re.M) if "* Axioms:" in out else []
+        coqchk_info = {"rc": rc, "wall_s": round(dt, 1), "axioms": ax, "tail": out[-1500:]}
+        if rc != 0:
+            problems.append({"kind": "theorem", "what": "coqchk " + lib, "detail": out[-1500:]})
     for nm in obl["failed"]:
         problems.append({"kind": "theorem", "what": nm, "detail": obl.get("props_tail") or obl.get("make_tail") or ""})
     if obl["make_rc"] != 0 and not obl["failed"]:
@@ -479,8 +528,10 @@ def main():
         problems.append({"kind": "harness", "what": e[:300]})
 
     def classify(line, r):
+        if spec.get("classify"):
+            return spec["classify"](line, r)
         code = r[2]
-        return spec.get("codes", {}).get(code, "code%d" % code)
+        return stream_spec_raw(spec, line.get("stream", "main")).get("codes", spec.get("codes", {})).get(code, "code%d" % code)
 
     diverged = []
     for l, r in zip(all_lines, all_res):
@@ -587,6 +638,7 @@ def main():
             "known_findings_hit": known_hits, "histograms": stats,
             "streams": [{"name": s["name"], "cases": s[tier]} for s in spec["streams"]],
             "broken_obligations": [p_["what"] for p_ in problems],
+            "coqchk": coqchk_info,
         },
         "assumptions": spec.get("assumptions", []),
         "wall_s": round(time.time() - t0, 1), "violations": len(reported) + (1 if exit_code and not reported else 0),
